@@ -480,6 +480,10 @@ def check(ctx):
 
 
 MUTANTS = [
+    Mutant("chunk-end-bytes-consumed-before-they-are-checked", HTTP, '        if not self._buffer.startswith(b"\\r\\n"):\n            raise _MalformedChunkedDataError("Chunk did not end with CRLF")\n\n        self.state = "CHUNK_LENGTH"\n        del self._buffer[0:2]\n        return True\n',
+           '        ending = bytes(self._buffer[0:2])\n        del self._buffer[0:2]\n        if ending != b"\\r\\n":\n            raise _MalformedChunkedDataError("Chunk did not end with CRLF")\n\n        self.state = "CHUNK_LENGTH"\n        return True\n'),
+    Mutant("extension-dropped-from-the-buffer-before-it-is-checked", HTTP, '        ext = self._buffer[endOfLengthIndex + 1 : eolIndex]\n        if ext and ext.translate(None, _chunkExtChars) != b"":\n            raise _MalformedChunkedDataError(\n                f"Invalid characters in chunk extensions: {ext!r}."\n            )\n',
+           '        ext = bytes(self._buffer[endOfLengthIndex + 1 : eolIndex])\n        del self._buffer[0 : eolIndex + 2]\n        self._buffer[0:0] = b"%x\\r\\n" % length\n        if ext and ext.translate(None, _chunkExtChars) != b"":\n            raise _MalformedChunkedDataError(\n                f"Invalid characters in chunk extensions: {ext!r}."\n            )\n        eolIndex = self._buffer.find(b"\\r\\n")\n'),
     Mutant('hexdigits-regex-dollar-accepts-trailing-newline', ABNF, '    for c in b:\n        if c not in b"0123456789abcdefABCDEF":\n            return False\n    return b != b""\n', '    return _HEX_RE.match(b) is not None\n', more=[(ABNF, '"""\n\n\ndef _istoken', '"""\n\nimport re\n\n_HEX_RE = re.compile(rb"[0-9a-fA-F]+$")\n\n\ndef _istoken')]),
     Mutant("hexdigits-accept-plus-space", ABNF, "        if c not in b\"0123456789abcdefABCDEF\":", "        if c not in b\"0123456789abcdefABCDEF +\":"),
     Mutant("size-by-int-base16", HTTP, "            length = _hexint(rawLength)\n        except ValueError:", "            length = int(rawLength, 16)\n        except ValueError:"),
